@@ -445,7 +445,7 @@ __CPROVER_assigns(ds_parent_v_, ds_parent_s_, data_v_, g_vwr, g_swr, g_edges, g_
                       replay=replay_by_native_search,
                       harness=H("  for (int k = 0; k < NSQ; k++) { g_in[k] = nondet_int(); g_vwr[k] = 0; g_swr[k] = 0; }\n"
                                 "  size_x = GC - 1; size_y = GR - 1; dy = GC; input_size = NSQ; g_nedges = 0;", "fill_and_pair();"),
-                      runs=[Run(backend="kissat", timeout=900)],
+                      runs=[Run(backend="kissat", timeout=900 if r * c <= 12 else 3000)],
                       desc=f"fill_and_pair as a whole on a {r}x{c} grid (all loops unrolled, real has_larger_input): every array access in range, every vertex of the reduced complex written exactly once and by the smallest of its four squares, interior squares once, boundary squares never"))
     return U
 
